@@ -70,7 +70,18 @@ func (p *packetizer) Packetize(payload []byte, samples uint32) []*Packet {
 		return nil
 	}
 
-	payloads := p.Payloader.Payload(p.MTU-12, payload)
+	mtu := p.MTU - 12
+	if id := p.extensionNumbers.AbsSendTime; id != 0 {
+		// The last packet also carries the abs-send-time header extension: leave
+		// room for it (one-byte form for ids 1-14, two-byte form otherwise).
+		if id >= 1 && id <= 14 {
+			mtu -= 8
+		} else {
+			mtu -= 12
+		}
+	}
+
+	payloads := p.Payloader.Payload(mtu, payload)
 	packets := make([]*Packet, len(payloads))
 
 	for i, pp := range payloads {
